@@ -186,6 +186,8 @@ pub enum Ev {
     MutexLock { mutex: MutexId, poisoned: bool },
     MutexUnlock { mutex: MutexId, poison: bool },
     Sleep { ns: Ns },
+    /// time a file operation takes (base cost plus an injected stall): not a sleep the program asked for
+    DiskWait { ns: Ns },
     FileCreate { path: String, ok: bool },
     FileWrite { path: String, n: usize, ok: bool },
     FileOpen { path: String, ok: bool },
@@ -213,6 +215,7 @@ impl Ev {
             Ev::Panic { .. } => 63,
             Ev::Signal { .. } => 64,
             Ev::Sleep { .. } => 65,
+            Ev::DiskWait { .. } => 66,
             _ => 0,
         }
     }
@@ -1361,10 +1364,19 @@ pub fn now() -> Ns {
 }
 
 pub fn sleep(d: Duration) {
+    sleep_as(d, false)
+}
+
+/// The time a file operation takes: blocks like `sleep`, recorded as `DiskWait`.
+pub fn disk_wait(d: Duration) {
+    sleep_as(d, true)
+}
+
+fn sleep_as(d: Duration, disk: bool) {
     yield_point(Op::Small);
     let dl = with(|w| {
         let ns = d.as_nanos().min(u64::MAX as u128 / 4) as u64;
-        w.record(Ev::Sleep { ns });
+        w.record(if disk { Ev::DiskWait { ns } } else { Ev::Sleep { ns } });
         w.now + ns
     });
     loop {
